@@ -6,9 +6,11 @@
 //!   strack <tid> <parent|main> <lid> <pos> <min> <max> <atten|none> <strength> <volume> <probe>
 //!   track <tid> <parent|main> <volume> <probe>          sound <tid> <l> <r>
 //!   setpos <tid> <pos> <tween>   setstr <tid> <f32> <tween>   lpos <lid> <pos> <tween>   lori <lid> <quat> <tween>
-//!   cb <frames>                            → `L R` per frame, then `p<tid> <distance|none>` per probed track per chunk
+//!   cb <frames>                            → `L R` per frame, then `p<tid> <distance|none>` per probed track per chunk, then `def|undef`
 //! self-contained op (one fresh manager; carries the implementation-side oracles, replayable alone):
 //!   scene <lpos> <lquat> <epos> <min> <max> <atten|none> <strength> <l> <r>   → `L R def|undef`
+//! `def|undef`: was every frame on the main bus finite *before* the renderer's device stage (which replaces NaN by
+//! silence and clamps)? Observed by a pass-through effect on the main track, so a NaN level is not masked.
 //! kernel ops (public `Tweenable` impls and `ListenerInfo` methods, stateless):
 //!   qtween <qa> <qb> <amount f64> | vtween <va> <vb> <amount f64> | linterp <pos> <ori> <prev pos> <prev ori> <amount f32>
 //! vectors `x,y,z` / `x,y,z,w` (f32 bits); value `fix,<f32>` | `dist,<i0>,<i1>,<o0>,<o1>,<easing>`;
@@ -24,6 +26,7 @@ use kira::track::{MainTrackBuilder, SpatialTrackBuilder, SpatialTrackHandle, Tra
 use kira::{AudioManager, Capacities, Decibels, Easing, Frame, Mapping, StartTime, Tween, Value};
 use std::collections::HashMap;
 use std::panic::{catch_unwind, resume_unwind, AssertUnwindSafe};
+use std::sync::atomic::{AtomicBool, Ordering};
 use std::sync::{Arc, Mutex};
 use std::time::Duration;
 
@@ -127,6 +130,29 @@ impl EffectBuilder for DistProbeBuilder {
 	}
 }
 
+// ---------------------------------------------------------------------------------------------
+// a pass-through effect on the MAIN track: is every frame of the mix finite before the device stage?
+// ---------------------------------------------------------------------------------------------
+struct BusProbe {
+	finite: Arc<AtomicBool>,
+}
+impl Effect for BusProbe {
+	fn process(&mut self, input: &mut [Frame], _dt: f64, _info: &Info) {
+		if input.iter().any(|f| !(f.left.is_finite() && f.right.is_finite())) {
+			self.finite.store(false, Ordering::SeqCst);
+		}
+	}
+}
+struct BusProbeBuilder {
+	finite: Arc<AtomicBool>,
+}
+impl EffectBuilder for BusProbeBuilder {
+	type Handle = ();
+	fn build(self) -> (Box<dyn Effect>, ()) {
+		(Box::new(BusProbe { finite: self.finite }), ())
+	}
+}
+
 enum Trk {
 	Plain(TrackHandle),
 	Spatial(SpatialTrackHandle),
@@ -137,6 +163,17 @@ struct St {
 	listeners: HashMap<u64, ListenerHandle>,
 	tracks: HashMap<u64, Trk>,
 	dist_log: DistLog,
+	/// cleared by the main-track probe when a non-finite frame passes; set again before each callback
+	bus_finite: Arc<AtomicBool>,
+}
+
+impl St {
+	/// one device callback; returns the device samples and "every main-bus frame was finite"
+	fn callback(&mut self, frames: usize) -> (Vec<f32>, bool) {
+		self.bus_finite.store(true, Ordering::SeqCst);
+		let o = self.mgr.backend_mut().callback(frames, 2);
+		(o, self.bus_finite.load(Ordering::SeqCst))
+	}
 }
 
 fn new_state(ibs: usize, sr: u32) -> St {
@@ -147,11 +184,13 @@ fn new_state(ibs: usize, sr: u32) -> St {
 		modulator_capacity: 1,
 		listener_capacity: 16,
 	};
+	let bus_finite = Arc::new(AtomicBool::new(true));
 	St {
-		mgr: probe::manager(caps, ibs, sr, MainTrackBuilder::new()),
+		mgr: probe::manager(caps, ibs, sr, MainTrackBuilder::new().with_effect(BusProbeBuilder { finite: bus_finite.clone() })),
 		listeners: HashMap::new(),
 		tracks: HashMap::new(),
 		dist_log: Arc::new(Mutex::new(vec![])),
+		bus_finite,
 	}
 }
 
@@ -222,14 +261,12 @@ fn exec(case: &[String], out: &mut Out) {
 				let sc = parse_scene(&tok);
 				let r = catch_unwind(AssertUnwindSafe(|| render_scene(&sc)));
 				match r {
-					Ok(o) => {
-						let finite = o[0].is_finite() && o[1].is_finite();
+					Ok((o, finite)) => {
 						out.put(format!("{} {} {}", h32(o[0]), h32(o[1]), if finite { "def" } else { "undef" }));
-						scene_oracles(&sc, o, line, out);
+						scene_oracles(&sc, o, finite, line, out);
 					}
 					Err(p) => {
-						let name = if sc.att.is_some() && sc.mn > sc.mx { "no_panic_min_gt_max" } else { "no_panic" };
-						out.oracle_fail(name, line);
+						out.oracle_fail("no_panic", line);
 						resume_unwind(p);
 					}
 				}
@@ -336,12 +373,13 @@ fn exec(case: &[String], out: &mut Out) {
 					"cb" => {
 						let frames = pu(tok[1]) as usize;
 						s.dist_log.lock().unwrap().clear();
-						let o = s.mgr.backend_mut().callback(frames, 2);
+						let (o, finite) = s.callback(frames);
 						let mut l = show_out(&o);
 						for (tid, d) in s.dist_log.lock().unwrap().iter() {
 							l += &format!(" p{} {}", tid, d.map(h32).unwrap_or_else(|| "none".into()));
 						}
-						if tok.len() > 2 && tok[2] == "finite" && o.iter().any(|x| !x.is_finite()) {
+						l += if finite { " def" } else { " undef" };
+						if tok.len() > 2 && tok[2] == "finite" && !(finite && o.iter().all(|x| x.is_finite())) {
 							out.oracle_fail("finite_output_seq", format!("{} # case {}", line, case[0]));
 						}
 						out.put(l);
@@ -425,15 +463,15 @@ enum ListenerMode {
 	NeverSeen,
 }
 
-fn render_scene_mode(sc: &SceneP, mode: ListenerMode) -> [f32; 2] {
+fn render_scene_mode(sc: &SceneP, mode: ListenerMode) -> ([f32; 2], bool) {
 	let mut st = new_state(4, 48000);
 	let lh = st.mgr.add_listener(mv(sc.lp), mq(sc.lq)).unwrap();
 	let id = lh.id();
 	let mut keep = Some(lh);
 	if mode == ListenerMode::NeverSeen {
 		keep = None;
-		st.mgr.backend_mut().callback(1, 2); // listener enters (already marked)
-		st.mgr.backend_mut().callback(1, 2); // and leaves
+		st.callback(1); // listener enters (already marked)
+		st.callback(1); // and leaves
 	}
 	let b = spatial_builder(&st, 1, sc.mn, sc.mx, sc.att, &Val::Fix(sc.strength), &Val::Fix(0.0), false);
 	let mut th = st.mgr.add_spatial_sub_track(id, mv(sc.ep), b).unwrap();
@@ -445,15 +483,19 @@ fn render_scene_mode(sc: &SceneP, mode: ListenerMode) -> [f32; 2] {
 	.unwrap();
 	if mode == ListenerMode::Dropped {
 		keep = None;
-		st.mgr.backend_mut().callback(1, 2); // listener enters marked, still audible here
-		st.mgr.backend_mut().callback(1, 2); // removed at the start of this callback
+		st.callback(1); // listener enters marked, still audible here
+		st.callback(1); // removed at the start of this callback
 	}
-	let o = st.mgr.backend_mut().callback(1, 2);
+	let (o, finite) = st.callback(1);
 	drop(keep);
-	[o[0], o[1]]
+	([o[0], o[1]], finite)
 }
-fn render_scene(sc: &SceneP) -> [f32; 2] {
+fn render_scene(sc: &SceneP) -> ([f32; 2], bool) {
 	render_scene_mode(sc, ListenerMode::Present)
+}
+/// the device samples of a scene (for the metamorphic partners)
+fn render_samples(sc: &SceneP) -> [f32; 2] {
+	render_scene(sc).0
 }
 
 // f64 reference geometry (the vocabulary of the property; NOT the model's formulas for the gains)
@@ -526,32 +568,38 @@ fn random_unit_quat(rng: &mut Rng) -> D4 {
 	}
 }
 
+/// The inputs the oracles speak about: finite coordinates and distances of moderate size (f32 overflow of squared
+/// lengths is outside the property), distances not negative. EVERY pair of distances (min < max, min == max,
+/// min > max) and EVERY orientation quaternion (the zero quaternion included) is inside.
 fn in_domain(sc: &SceneP) -> bool {
-	let q = d4(sc.lq);
-	let n2 = q[0] * q[0] + q[1] * q[1] + q[2] * q[2] + q[3] * q[3];
 	let big = |v: V3| v.iter().any(|x| x.abs() > 1.0e4);
-	sc.mn < sc.mx && sc.mn >= 0.0 && n2 >= 1.0e-6 && n2 <= 1.0e6 && !big(sc.lp) && !big(sc.ep) && sc.mx <= 1.0e6
+	sc.mn >= 0.0 && sc.mx >= 0.0 && sc.mn <= 1.0e6 && sc.mx <= 1.0e6 && !big(sc.lp) && !big(sc.ep)
 }
 
-fn scene_oracles(sc: &SceneP, o: [f32; 2], line: &str, out: &mut Out) {
-	let q = d4(sc.lq);
+/// The orientation the property's geometry speaks about: a quaternion is used normalised; one without a usable
+/// length (the zero quaternion) counts as the identity orientation. `None`: the length is so extreme (squared
+/// length outside [1e-6, 1e6], but not zero) that the f32 normalisation is at or beyond its range — such a scene
+/// is only checked by the oracles that do not depend on the orientation (finite, attenuation, no listener).
+fn effective_orientation(lq: Q4) -> Option<D4> {
+	let q = d4(lq);
 	let n2 = q[0] * q[0] + q[1] * q[1] + q[2] * q[2] + q[3] * q[3];
+	if n2 == 0.0 {
+		Some([0.0, 0.0, 0.0, 1.0])
+	} else if (1.0e-6..=1.0e6).contains(&n2) {
+		Some(qnorm(q))
+	} else {
+		None
+	}
+}
+
+fn scene_oracles(sc: &SceneP, o: [f32; 2], bus_finite: bool, line: &str, out: &mut Out) {
 	N_SCENE.fetch_add(1, std::sync::atomic::Ordering::SeqCst);
-	// out-of-domain stream: record what the real code does at the excluded points
 	if !in_domain(sc) {
-		if !(o[0].is_finite() && o[1].is_finite()) {
-			let name = if sc.att.is_some() && sc.mn == sc.mx {
-				"finite_min_eq_max"
-			} else if n2 == 0.0 {
-				"finite_zero_quat"
-			} else {
-				"finite_out_of_domain"
-			};
-			out.oracle_fail(name, line);
-		}
 		return;
 	}
-	if !(o[0].is_finite() && o[1].is_finite()) {
+	// the level is finite for every position, orientation and pair of distances — on the main bus, i.e. before
+	// the renderer replaces NaN by silence (so an undefined level is not masked), and at the device
+	if !(bus_finite && o[0].is_finite() && o[1].is_finite()) {
 		out.oracle_fail("finite_output", line);
 		return;
 	}
@@ -563,11 +611,6 @@ fn scene_oracles(sc: &SceneP, o: [f32; 2], line: &str, out: &mut Out) {
 	let d = len3(rel);
 	let (mn, mx) = (sc.mn as f64, sc.mx as f64);
 	let mono = (sc.l as f64 + sc.r as f64) / 2.0;
-	let qn = qnorm(q);
-	let qc = [-qn[0], -qn[1], -qn[2], qn[3]];
-	let local = qrot(qc, rel); // emitter in the listener's frame
-	let ear_l = len3(sub3(local, [-EAR, 0.0, 0.0]));
-	let ear_r = len3(sub3(local, [EAR, 0.0, 0.0]));
 	let scale = d.max(len3(lp)).max(len3(ep)).max(1.0);
 	// well-conditioned for the metamorphic relations: not within rounding reach of an ear, of the
 	// min/max kinks, and a distance range that is not razor thin
@@ -578,30 +621,39 @@ fn scene_oracles(sc: &SceneP, o: [f32; 2], line: &str, out: &mut Out) {
 		Some(Easing::InPowi(_)) | Some(Easing::OutPowi(_)) | Some(Easing::InOutPowi(_)) => true,
 		Some(Easing::InPowf(p)) | Some(Easing::OutPowf(p)) | Some(Easing::InOutPowf(p)) => p >= 1.0,
 	};
-	let well = ear_l > 1.0e-3 * scale
-		&& ear_r > 1.0e-3 * scale
-		&& (sc.att.is_none()
-			|| (gentle
-				&& (mx - mn) > 5.0e-2 * mx.max(scale)
-				&& (d - mx).abs() > 1.0e-3 * mx.max(scale)
-				&& (d - mn).abs() > 1.0e-3 * mx.max(scale)));
+	let well_att = sc.att.is_none()
+		|| (gentle
+			&& if mn < mx {
+				(mx - mn) > 5.0e-2 * mx.max(scale)
+					&& (d - mx).abs() > 1.0e-3 * mx.max(scale)
+					&& (d - mn).abs() > 1.0e-3 * mx.max(scale)
+			} else {
+				// no range: a step at min — well-conditioned away from the step
+				(d - mn).abs() > 1.0e-3 * mn.max(scale)
+			});
 	let tol = |x: f64| 2.0e-3 * x.abs().max(1.0e-3);
 	// scale of the signal (strength 0 keeps the stereo input, so the mono mix is the wrong yardstick)
 	let amp = (sc.l.abs().max(sc.r.abs())) as f64;
 
 	// (a) listener missing (dropped, or never seen by the track) => exact silence
 	for (mode, name) in [(ListenerMode::Dropped, "no_listener_dropped"), (ListenerMode::NeverSeen, "no_listener_never")] {
-		let z = render_scene_mode(sc, mode);
-		if z[0] != 0.0 || z[1] != 0.0 {
+		let (z, zf) = render_scene_mode(sc, mode);
+		if z[0] != 0.0 || z[1] != 0.0 || !zf {
 			out.oracle_fail(name, line);
 		}
 	}
-	// (b) unity within min (observable exactly at strength 0), exact silence at/after max
+	// (b) unity within min (observable exactly at strength 0), exact silence at/after max — for every pair of
+	//     distances: with max <= min (no range to interpolate over) the curve is a step at min, which is then at
+	//     or beyond the maximum as well: unity closer than min, silence from min on
 	if sc.att.is_some() {
-		if d >= mx * (1.0 + 1.0e-5) && (o[0] != 0.0 || o[1] != 0.0) {
+		//     (the f32 distance carries a rounding error of a few ulp of the coordinates: keep clear of the kinks)
+		let slack = |x: f64| 1.0e-5 * x + 1.0e-6 * scale;
+		let silent_from = if mn < mx { mx } else { mn };
+		if (d >= silent_from + slack(silent_from) || (silent_from == 0.0 && mn >= mx)) && (o[0] != 0.0 || o[1] != 0.0) {
 			out.oracle_fail("silent_beyond_max", line);
 		}
-		if d <= mn * (1.0 - 1.0e-5) && s == 0.0 && (o[0] != sc.l || o[1] != sc.r) {
+		let within = if mn < mx { d <= mn - slack(mn) || d == 0.0 } else { d <= mn - slack(mn) };
+		if within && s == 0.0 && (o[0] != sc.l || o[1] != sc.r) {
 			out.oracle_fail("unity_within_min", line);
 		}
 	}
@@ -616,6 +668,15 @@ fn scene_oracles(sc: &SceneP, o: [f32; 2], line: &str, out: &mut Out) {
 			out.oracle_fail("strength0_same_factor", line);
 		}
 	}
+	// everything below speaks about directions, i.e. needs the listener's orientation
+	let Some(qn) = effective_orientation(sc.lq) else {
+		return;
+	};
+	let qc = [-qn[0], -qn[1], -qn[2], qn[3]];
+	let local = qrot(qc, rel); // emitter in the listener's frame
+	let ear_l = len3(sub3(local, [-EAR, 0.0, 0.0]));
+	let ear_r = len3(sub3(local, [EAR, 0.0, 0.0]));
+	let well = ear_l > 1.0e-3 * scale && ear_r > 1.0e-3 * scale && well_att;
 	// (d) ear gains in [1 - s, 1] (observable without attenuation); never louder than the mono input
 	if s > 0.0 && mono.abs() > 1.0e-3 {
 		let (gl, gr) = (o[0] as f64 / mono, o[1] as f64 / mono);
@@ -652,7 +713,7 @@ fn scene_oracles(sc: &SceneP, o: [f32; 2], line: &str, out: &mut Out) {
 		a.strength = 0.0;
 		let mut b = a.clone();
 		b.ep = f3(add3(lp, qrot(r, rel)));
-		let (oa, ob) = (render_scene(&a), render_scene(&b));
+		let (oa, ob) = (render_samples(&a), render_samples(&b));
 		for k in 0..2 {
 			if (oa[k] as f64 - ob[k] as f64).abs() > tol(oa[k] as f64) {
 				out.oracle_fail("attenuation_distance_only", format!("{} # other: {}", line, fmt_scene(&b)));
@@ -666,7 +727,7 @@ fn scene_oracles(sc: &SceneP, o: [f32; 2], line: &str, out: &mut Out) {
 		let n = qrot(qn, [1.0, 0.0, 0.0]);
 		let mut m = sc.clone();
 		m.ep = f3(sub3(ep, scale3(n, 2.0 * dot3(rel, n))));
-		let om = render_scene(&m);
+		let om = render_samples(&m);
 		if (om[0] as f64 - o[1] as f64).abs() > tol(amp) || (om[1] as f64 - o[0] as f64).abs() > tol(amp) {
 			out.oracle_fail("mirror_swaps", format!("{} # mirrored: {}", line, fmt_scene(&m)));
 		}
@@ -679,7 +740,7 @@ fn scene_oracles(sc: &SceneP, o: [f32; 2], line: &str, out: &mut Out) {
 		m.lp = f3(add3(qrot(r, lp), t));
 		m.ep = f3(add3(qrot(r, ep), t));
 		m.lq = f4(qmul(r, qn));
-		let om = render_scene(&m);
+		let om = render_samples(&m);
 		if (om[0] as f64 - o[0] as f64).abs() > tol(amp) || (om[1] as f64 - o[1] as f64).abs() > tol(amp) {
 			out.oracle_fail("rigid_motion_invariant", format!("{} # moved: {}", line, fmt_scene(&m)));
 		}
@@ -711,8 +772,17 @@ fn gen_pos(rng: &mut Rng) -> V3 {
 }
 fn gen_quat(rng: &mut Rng) -> Q4 {
 	let h = std::f32::consts::FRAC_1_SQRT_2;
-	match rng.below(10) {
+	match rng.below(12) {
 		0 | 1 => [0.0, 0.0, 0.0, 1.0],
+		// the zero quaternion: finite, accepted by add_listener / set_orientation; counts as the identity
+		10 => [0.0, 0.0, 0.0, 0.0],
+		11 if rng.chance(1, 2) => {
+			// a length at or beyond the ends of the f32 range of the squared length (underflows to zero / to a
+			// subnormal, barely normal, huge, overflows): normalised when it can be, the identity otherwise
+			let q = random_unit_quat(rng);
+			let k = rng.pick(&[1.0e-30, 1.0e-25, 5.0e-23, 3.0e-20, 1.0e-19, 1.2e-19, 1.0e-12, 1.0e12, 1.0e19, 1.0e25]);
+			f4([q[0] * k, q[1] * k, q[2] * k, q[3] * k])
+		}
 		2 => rng.pick(&[[0.0, h, 0.0, h], [h, 0.0, 0.0, h], [0.0, 0.0, h, h], [0.0, 1.0, 0.0, 0.0], [0.0, 0.0, 0.0, -1.0], [0.0, -h, 0.0, h]]),
 		3 => {
 			// not normalised (kira normalises when interpolating)
@@ -724,7 +794,26 @@ fn gen_quat(rng: &mut Rng) -> Q4 {
 	}
 }
 fn gen_distances(rng: &mut Rng) -> (f32, f32) {
-	match rng.below(8) {
+	match rng.below(10) {
+		// no range to interpolate over: min == max (was 0/0) ...
+		8 => {
+			let a = match rng.below(4) {
+				0 => rng.pick(&[0.0f32, 1.0, 5.0, 0.5, 100.0]),
+				_ => rng.uniform(0.0, 30.0) as f32,
+			};
+			(a, a)
+		}
+		// ... and min > max (was a panic in f32::clamp)
+		9 => {
+			let (a, b) = match rng.below(4) {
+				0 => rng.pick(&[(2.0f32, 1.0f32), (100.0, 1.0), (1.0, 0.0), (5.5, 5.0)]),
+				_ => {
+					let b = rng.uniform(0.0, 20.0) as f32;
+					(b + rng.uniform(0.01, 40.0) as f32, b)
+				}
+			};
+			(a, b)
+		}
 		0 | 1 => (1.0, 100.0),
 		2 => (0.0, 10.0),
 		3 => (0.5, 2.0),
@@ -771,11 +860,13 @@ fn gen_emitter(rng: &mut Rng, lp: V3, lq: Q4, mn: f32, mx: f32) -> V3 {
 			f3(add3(d3(lp), qrot(qn, [side, 0.0, 0.0])))
 		}
 		2 | 3 | 4 => {
-			// at a chosen distance: inside min, between, at max, beyond max
-			let dist = match rng.below(5) {
+			// at a chosen distance: inside min, at min, between, at max, beyond both
+			let dist = match rng.below(7) {
 				0 => mn as f64 * rng.unit(),
 				1 => mx as f64,
 				2 => mx as f64 * rng.uniform(1.0, 3.0),
+				3 => mn as f64,
+				4 => mn.max(mx) as f64 * rng.uniform(1.0, 3.0),
 				_ => mn as f64 + (mx as f64 - mn as f64) * rng.unit(),
 			};
 			let dir = qrot(random_unit_quat(rng), [1.0, 0.0, 0.0]);
@@ -797,23 +888,16 @@ fn gen_emitter(rng: &mut Rng, lp: V3, lq: Q4, mn: f32, mx: f32) -> V3 {
 }
 fn gen_scene(rng: &mut Rng, stats: &mut Stats) -> SceneP {
 	let lp = gen_pos(rng);
-	let mut lq = gen_quat(rng);
-	let (mut mn, mut mx) = gen_distances(rng);
-	// out-of-domain stream (discovers hypotheses the code does not guard)
-	match rng.below(40) {
-		0 => {
-			std::mem::swap(&mut mn, &mut mx);
-			stats.hit("ood_min_gt_max");
-		}
-		1 => {
-			mx = mn;
-			stats.hit("ood_min_eq_max");
-		}
-		2 => {
-			lq = [0.0, 0.0, 0.0, 0.0];
-			stats.hit("ood_zero_quat");
-		}
-		_ => {}
+	let lq = gen_quat(rng);
+	let (mn, mx) = gen_distances(rng);
+	// the formerly excluded inputs are generated regularly (gen_distances / gen_quat) and checked by the same oracles
+	if mn > mx {
+		stats.hit("scene_min_gt_max");
+	} else if mn == mx {
+		stats.hit("scene_min_eq_max");
+	}
+	if lq == [0.0, 0.0, 0.0, 0.0] {
+		stats.hit("scene_zero_quat");
 	}
 	let ep = gen_emitter(rng, lp, lq, mn, mx);
 	SceneP { lp, lq, ep, mn, mx, att: gen_atten(rng), strength: gen_strength(rng), l: gen_sample(rng), r: gen_sample(rng) }
@@ -1032,11 +1116,7 @@ pub fn gen(rng: &mut Rng, n: usize, _thorough: bool, stats: &mut Stats) -> Vec<S
 			for _ in 0..rng.range(1, 4) {
 				let sc = gen_scene(rng, stats);
 				stats.hit("scene");
-				let fault = sc.att.is_some() && sc.mn > sc.mx;
 				out.push(fmt_scene(&sc));
-				if fault {
-					break; // the case is dead after a panic
-				}
 			}
 		}
 	}
